@@ -687,6 +687,20 @@ func main() {
 		return
 	}
 	runner.Main(runner.Check{
+		RacePass: func(n int, scratch string) (int, []string) {
+			total, var_p := 0, []string(nil)
+			for _, kind := range []string{"ttl", "lru"} {
+				for i, cb := range combos(kind, "quick") {
+					if i%7 != 0 {
+						continue
+					}
+					d, p := vexp.RacePass(scenario(cb), n)
+					total += d
+					var_p = append(var_p, p...)
+				}
+			}
+			return total, var_p
+		},
 		ID:          "C10",
 		Level:       "model_checking",
 		Rule:        "concurrent: every pair/triple of thread programs over {Add k0/k1, Get, Remove, release, evicting release, double release} on the real TTLCache/LRUCache(cap 1), every schedule within the preemption bound incl. TTL timer firing; non-trivial = program combination whose final observation depends on the schedule. sequential: every op history up to the depth vs a reference model; distinct = canonical reference states",
